@@ -7,7 +7,7 @@ widening casts, guard refinement) — or be absent because the code uses a harde
 
   C20-a  fixed-point operators: impls of core::ops arithmetic traits and mul_div for Fixed / F26Dot6 / F2Dot14 / ...
   C20-b  core reader zone (font_data, read, array, offset, offset_array, table_ref)                 [= C01-a]
-  C20-d  TrueType interpreter arithmetic: hint/math.rs, engine/arith.rs, engine/round.rs
+  C20-d  TrueType interpreter arithmetic: hint/math.rs, hint/round.rs, engine/arith.rs, engine/round.rs
 """
 import re
 
@@ -22,8 +22,8 @@ def zones(facts):
                    if re.search(r"core::ops::arith::|::mul_div$|::wrapping_(add|sub)$|::saturating_(add|sub)$", b.path)], 20)
     z["C20-b"] = ("read-fonts core reader zone",
                   facts.bodies_in_files("read_fonts", [r"read-fonts/src/(font_data|read|array|offset|offset_array|table_ref)\.rs$"]), 12)
-    z["C20-d"] = ("TrueType interpreter arithmetic (hint/math.rs, engine/arith.rs, engine/round.rs)",
-                  facts.bodies_in_files("skrifa", [r"glyf/hint/math\.rs$", r"glyf/hint/engine/(arith|round)\.rs$"]), 10)
+    z["C20-d"] = ("TrueType interpreter arithmetic (hint/math.rs, hint/round.rs, engine/arith.rs, engine/round.rs)",
+                  facts.bodies_in_files("skrifa", [r"glyf/hint/math\.rs$", r"glyf/hint/round\.rs$", r"glyf/hint/engine/(arith|round)\.rs$"]), 10)
     return z
 
 
@@ -49,6 +49,6 @@ def run(chk):
     chk.notes.append("C20-c: the generated marker range functions compute `start + len` (1147 additions); read()/marker agreement plus the "
                      "Cursor::finish gate (positions saturate and are <= data.len() <= isize::MAX) make these additions overflow-free.")
     chk.assume("values entering a zone function are bounded only by their types (the interpreter stack can hold any i32)")
-    chk.notes.append("Outside the claim: hint/round.rs RoundState::round (unchecked +,-,neg,/ on interpreter values; triage not "
-                     "completed, see DESIGN.md F8), the glyf scaler, CFF hinter, autohinter, colour instance and hand-written "
-                     "table helpers (~1200 overflow and ~530 bounds sites).")
+    chk.notes.append("hint/round.rs joined zone d after F12 was repaired (wrapping arithmetic, as FreeType's ADD_LONG/NEG_LONG).  The "
+                     "glyf scaler, CFF hinter, autohinter, colour instance and hand-written table helpers are covered by the census "
+                     "C20-f only (no NEW unproven site); their baseline sites are not claimed.")
